@@ -41,6 +41,20 @@ type avElemAddr struct {
 }
 type avCycle struct{}
 
+// avCell: a local variable that is assigned exactly once and otherwise only
+// read (also by closures that capture it): loads yield the assigned value.
+type avCell struct {
+	st *ssa.Store
+	fr *Frame
+}
+
+func (a avCell) key() string { return fmt.Sprintf("cell:%p", a.st) }
+
+// avNonNil: an interface value known to be non-nil (a constructed error).
+type avNonNil struct{}
+
+func (avNonNil) key() string { return "nonnil" }
+
 // avFunc is a function value (closure with its evaluated bindings).
 type avFunc struct {
 	fn   *ssa.Function
@@ -133,6 +147,9 @@ type Evaluator struct {
 	// those fields: for queries about tests of the *initial* configuration in
 	// functions whose stores to a field come after the tests of that field.
 	NoKill bool
+	// Expand models os.Expand(s, mapping) for constant s: the environment of
+	// the cell ("$NFPM_PASSPHRASE" -> "G"); other strings stay unknown.
+	Expand map[string]AV
 }
 
 func newEvaluator(c *Ctx) *Evaluator {
@@ -380,6 +397,11 @@ func (f *Frame) eval1(v ssa.Value) AV {
 			return nil
 		}
 		return avConst{x.Value}
+	case *ssa.Alloc:
+		if st := singleAssignment(x); st != nil {
+			return avCell{st, f}
+		}
+		return nil
 	case *ssa.Parameter:
 		for i, p := range f.Fn.Params {
 			if p == x && i < len(f.Params) {
@@ -426,6 +448,25 @@ func (f *Frame) eval1(v ssa.Value) AV {
 				return nil
 			case avElemAddr:
 				return a.s.elems[a.idx]
+			case avCell:
+				return a.fr.Eval(a.st.Val)
+			}
+			// a private local cell (named result, address-taken local that
+			// never leaves the function): the value stored earlier in the
+			// same block (`x, err = f(); if err != nil`)
+			if al, ok := x.X.(*ssa.Alloc); ok && privateCell(al) {
+				var last *ssa.Store
+				for _, in := range x.Block().Instrs {
+					if in == ssa.Instruction(x) {
+						break
+					}
+					if st, ok := in.(*ssa.Store); ok && st.Addr == ssa.Value(al) {
+						last = st
+					}
+				}
+				if last != nil {
+					return f.Eval(last.Val)
+				}
 			}
 			return nil
 		case token.NOT:
@@ -483,6 +524,9 @@ func (f *Frame) eval1(v ssa.Value) AV {
 		}
 		return nil
 	case *ssa.MakeInterface:
+		if types.Identical(x.Type(), errorType) {
+			return avNonNil{}
+		}
 		return nil
 	case *ssa.Function:
 		return avFunc{fn: x}
@@ -602,6 +646,15 @@ func avEqual(l, r AV) (eq bool, known bool) {
 		if b, ok := r.(avConst); ok && b.v == nil {
 			return false, true
 		}
+	case avNonNil:
+		if b, ok := r.(avConst); ok && b.v == nil {
+			return false, true
+		}
+	}
+	if _, ok := r.(avNonNil); ok {
+		if a, ok := l.(avConst); ok && a.v == nil {
+			return false, true
+		}
 	}
 	return false, false
 }
@@ -668,6 +721,20 @@ func (f *Frame) evalCall(x *ssa.Call) AV {
 			}
 		}
 		return nil
+	}
+	if o := calleeObj(x); o != nil {
+		switch qualifiedName(o) {
+		case "fmt.Errorf", "errors.New":
+			return avNonNil{}
+		case "os.Expand":
+			if f.ev.Expand != nil && len(cc.Args) > 0 {
+				if str, ok := avStr(f.Eval(cc.Args[0])); ok {
+					if v, ok := f.ev.Expand[str]; ok {
+						return v
+					}
+				}
+			}
+		}
 	}
 	// natively modelled pure string predicates
 	if o := calleeObj(x); o != nil && o.Pkg() != nil && o.Pkg().Path() == "strings" {
@@ -795,4 +862,67 @@ func (f *Frame) mustReach(pred func(in ssa.Instruction, fr *Frame) bool, inprog 
 		return false
 	}
 	return !dfs(0)
+}
+
+// privateCell: the local is only ever stored to and loaded from directly.
+func privateCell(al *ssa.Alloc) bool {
+	if al.Referrers() == nil {
+		return false
+	}
+	for _, ref := range *al.Referrers() {
+		switch r := ref.(type) {
+		case *ssa.Store:
+			if r.Addr != ssa.Value(al) {
+				return false
+			}
+		case *ssa.UnOp:
+		case *ssa.DebugRef:
+		default:
+			return false
+		}
+	}
+	return true
+}
+
+// singleAssignment: the one store into a local that is otherwise only loaded,
+// directly or through closures capturing it; nil when there is none or more.
+func singleAssignment(al *ssa.Alloc) *ssa.Store {
+	if al.Referrers() == nil {
+		return nil
+	}
+	var only *ssa.Store
+	n := 0
+	captured := false
+	for _, ref := range *al.Referrers() {
+		switch r := ref.(type) {
+		case *ssa.Store:
+			if r.Addr != ssa.Value(al) {
+				return nil
+			}
+			only = r
+			n++
+		case *ssa.UnOp, *ssa.DebugRef:
+		case *ssa.MakeClosure:
+			captured = true
+			fn, _ := r.Fn.(*ssa.Function)
+			for i, b := range r.Bindings {
+				if b != ssa.Value(al) || fn == nil || i >= len(fn.FreeVars) {
+					continue
+				}
+				for _, r2 := range *fn.FreeVars[i].Referrers() {
+					if _, isLoad := r2.(*ssa.UnOp); !isLoad {
+						if _, isDbg := r2.(*ssa.DebugRef); !isDbg {
+							return nil
+						}
+					}
+				}
+			}
+		default:
+			return nil
+		}
+	}
+	if n != 1 || !captured {
+		return nil
+	}
+	return only
 }
